@@ -807,6 +807,13 @@ func (c *Ctx) registerZZ(tab map[string]intrinsicFn) {
 	tab[M+"Fingerprint"] = func(c *Ctx, fn *ssa.Function, a []Value) Value {
 		return c.fingerprint(a[1], 0, map[*Value]bool{})
 	}
+	tab[M+"Concrete"] = func(c *Ctx, fn *ssa.Function, a []Value) Value {
+		return c.concretize(a[1].(*smt.Term), "harness: Concrete")
+	}
+	tab[M+"StopAtBoundary"] = func(c *Ctx, fn *ssa.Function, a []Value) Value {
+		c.stopAtBoundary = true
+		return nil
+	}
 	tab[M+"Protect"] = func(c *Ctx, fn *ssa.Function, a []Value) Value {
 		if s := c.asShadow(a[2]); s != nil {
 			c.protected[s] = c.str(a[1])
